@@ -749,6 +749,33 @@ impl SubCheck for AcrossThreads {
 			let mut hs = vec![];
 			for t in 0..threads {
 				let c = mc.client.clone();
+				// the first caller makes batch requests, the others plain calls
+				if t == 0 {
+					hs.push(tokio::spawn(async move {
+						let mut bad = vec![];
+						for i in 0..per / 4 + 1 {
+							let names: Vec<String> = (0..12).map(|k| format!("b_{i}_{k}")).collect();
+							let mut b = BatchRequestBuilder::new();
+							for n in &names {
+								b.insert(n, rpc_params![]).unwrap();
+							}
+							match c.batch_request::<String>(b).await {
+								Ok(r) => {
+									let got: Vec<Option<String>> = r.into_iter().map(|e| e.ok()).collect();
+									if got != names.iter().cloned().map(Some).collect::<Vec<_>>() {
+										bad.push(format!("batch {i} => {got:?}"));
+									}
+								}
+								Err(e) => bad.push(format!("batch {i} => {e:?}")),
+							}
+							if bad.len() > 2 {
+								break;
+							}
+						}
+						bad
+					}));
+					continue;
+				}
 				hs.push(tokio::spawn(async move {
 					let mut bad = vec![];
 					for i in 0..per {
